@@ -101,4 +101,161 @@ theorem inttofp_eq (a : Nat) (ha : a < 2^32) :
       simp only [decide_eq_true_eq]
       omega
 
+theorem inttofp_spec' (a : Nat) (ha : a < 2^32) :
+    (int32 a = 0 → (inttofp a).1 = 0) ∧
+    (int32 a ≠ 0 → normal (inttofp a).1 = true ∧
+       sval (inttofp a).1 = (if int32 a < 0 then -1 else 1) * ((truncSig (int32 a).natAbs : Nat) : Int) * 2^149) ∧
+    (inttofp a).2 = b2n (lostSig (int32 a).natAbs) := by
+  have hEq := inttofp_eq a ha
+  simp only [] at hEq
+  rw [hEq]
+  generalize hn : (int32 a).natAbs = n
+  have hx0 : int32 a = 0 ↔ n = 0 := by rw [← hn]; omega
+  by_cases h0 : n = 0
+  · subst h0
+    refine ⟨fun _ => by simp, fun h => absurd (hx0.mpr rfl) h, ?_⟩
+    show b2n (decide ((0 * 2 ^ if 0 = 0 then 32 else 31 - Nat.log2 0) % 2 ^ 32 % 2 ^ 8 ≠ 0)) = b2n (lostSig 0)
+    decide
+  · have hn32 : n < 2^32 := by have := int32_natAbs_le a; rw [hn] at this; simp only [Nat.reducePow] at *; omega
+    have hL : n.log2 ≤ 31 := by have := (Nat.log2_lt h0).mpr hn32; omega
+    have h1 : 2^n.log2 ≤ n := Nat.log2_self_le h0
+    have h2 : n < 2^(n.log2 + 1) := Nat.lt_log2_self
+    obtain ⟨c1, c2⟩ := i2f_core n n.log2 hL h1 h2
+    simp only [h0, if_false]
+    have hs : (if int32 a < 0 then 1 else 0) < 2 := by split <;> omega
+    have hf : (n * 2 ^ (31 - n.log2) % 2 ^ 32 / 2 ^ 8) % 2 ^ 23 < 2^23 := Nat.mod_lt _ (by decide)
+    obtain ⟨w1, w2, w3, w4⟩ := fields_of_word (if int32 a < 0 then 1 else 0) (127 + n.log2) _ hs
+      (by simp only [Nat.reducePow]; omega) hf
+    refine ⟨fun h => absurd (hx0.mp h) h0, fun _ => ⟨?_, ?_⟩, ?_⟩
+    · unfold normal
+      rw [w3]
+      simp only [Bool.and_eq_true, decide_eq_true_eq]
+      omega
+    · unfold sval mag mant
+      rw [w2, w3, w4, show 127 + n.log2 - 1 = 126 + n.log2 by omega, c1]
+      unfold truncSig dropBits
+      generalize n / 2 ^ (n.log2 + 1 - 24) * 2 ^ (n.log2 + 1 - 24) = T
+      by_cases hneg : int32 a < 0
+      · simp only [hneg, if_true]
+        rw [Int.natCast_mul]
+        simp only [Int.natCast_pow, Int.cast_ofNat_Int]
+        omega
+      · simp only [hneg, if_false]
+        rw [Int.natCast_mul]
+        simp only [Int.natCast_pow, Int.cast_ofNat_Int]
+        omega
+    · unfold lostSig dropBits
+      rw [b2n_inj, Bool.eq_iff_iff]
+      simp only [decide_eq_true_eq]
+      exact c2
+theorem sub8 (a b : Nat) (ha : a < 256) (hb : b < 256) : Leaf.sub 8 a b = (a + 256 - b) % 256 := by
+  unfold Leaf.sub Bits.put
+  simp only [Int.reducePow]
+  omega
+theorem or_mod_left (u v w : Nat) : (u % 2^w ||| v) % 2^w = (u ||| v) % 2^w := by
+  apply Nat.eq_of_testBit_eq
+  intro i
+  simp only [Nat.testBit_mod_two_pow, Nat.testBit_or]
+  by_cases h : i < w <;> simp [h]
+
+/-- `Select([0, s1, 1], ins)`: the OR of the selected inputs, each at its own width -/
+theorem select3 (rw s1 w0 w1 w2 x0 x1 x2 : Nat) (hs : s1 < 2) :
+    Lib.select rw [0, s1, 1] [(w0, x0), (w1, x1), (w2, x2)] =
+      ((if s1 = 1 then x1 % 2^w1 else 0) ||| x2 % 2^w2) % 2^rw := by
+  have hm : ∀ w x, (2^w - 1) &&& x = x % 2^w := fun w x => by
+    rw [Nat.and_comm]; exact Nat.and_two_pow_sub_one_eq_mod x w
+  have : s1 = 0 ∨ s1 = 1 := by omega
+  rcases this with h | h <;> subst h <;>
+    simp [Lib.select, Lib.orN, Leaf.or2, Leaf.and2, Leaf.repeat1, hm, or_mod_left]
+
+/-- the datapath of FPtoInt_SP on an operand with a non-zero exponent field, as arithmetic on the fields -/
+theorem fptoint_eq (a : Nat) (h1 : 1 ≤ expOf a) :
+    let e := expOf a
+    let m := 2^23 + fracOf a
+    let realE := (e + 129) % 256
+    let sra := (279 - realE) % 256
+    let sla := (realE + 233) % 256
+    let shifted : Nat := if sra / 128 % 2 = 1 then (m * 2^32 * 2^sla) % 2^64 else (m * 2^32 / 2^sra) % 2^64
+    let pos : Nat := shifted / 2^32
+    let fm : Nat := if signOf a = 1 then Bits.put 33 (-(pos : Int)) else pos
+    let sre := realE / 128 % 2
+    fptoint a = ⟨((if sre = 1 then 0 else 0) ||| fm % 2^33) % 2^32,
+                 ((if sre = 1 then 1 else 0) ||| b2n (decide (shifted % 2^33 ≠ 0)) % 2) % 2,
+                 0,
+                 ((if sre = 1 then 0 else 0) ||| b2n (decide (Bits.toSigned 8 30 < Bits.toSigned 8 realE)) % 2) % 2⟩ := by
+  intro e m realE sra sla shifted pos fm sre
+  have he : e < 2^8 := expOf_lt a
+  have hf := fracOf_lt a
+  have he0 : e ≠ 0 := by omega
+  unfold fptoint
+  rw [parts_eq]
+  have hd0 : decide (expOf a = 0) = false := by simp; exact he0
+  have hd1 : decide (expOf a ≠ 0) = true := by simp; exact he0
+  have hb1 : b2n true = 1 := rfl
+  have hb0 : b2n false = 0 := rfl
+  simp only [hd0, hd1, Bool.false_and, hb1, hb0, Nat.one_mul]
+  have hre : Leaf.sub 8 (expOf a) 127 = realE := by
+    rw [sub8 _ _ (by simpa using he) (by decide)]; show (e + 256 - 127) % 256 = (e + 129) % 256; omega
+  have hreL : realE < 256 := Nat.mod_lt _ (by decide)
+  have hsra : Leaf.sub 8 (Leaf.const 8 23) realE = sra := by
+    rw [show Leaf.const 8 23 = 23 by decide, sub8 _ _ (by decide) hreL]
+  have hsla : Leaf.sub 8 realE (Leaf.const 8 23) = sla := by
+    rw [show Leaf.const 8 23 = 23 by decide, sub8 _ _ hreL (by decide)]; show (realE + 256 - 23) % 256 = (realE + 233) % 256; omega
+  have hsraL : sra < 2^8 := Nat.mod_lt _ (by decide)
+  have hslaL : sla < 2^8 := Nat.mod_lt _ (by decide)
+  have hsign : ∀ x, Lib.sign 8 1 x = x / 128 % 2 := by
+    intro x; simp only [Lib.sign, Leaf.bit, Nat.shiftRight_eq_div_pow, Nat.reducePow, Nat.reduceSub]; omega
+  have hm : m < 2^24 := by show 2^23 + fracOf a < 2^24; simp only [Nat.reducePow] at *; omega
+  have hfrac0 : Lib.concatMSBF 56 [(24, 2 ^ 23 + fracOf a), (32, Leaf.const 32 0)] = m * 2^32 := by
+    rw [show Leaf.const 32 0 = 0 by decide, C08.concatMSBF_spec 56 _ (by simp) (by
+      intro wv hwv
+      simp only [List.mem_cons, List.mem_nil_iff, or_false] at hwv
+      rcases hwv with rfl | rfl
+      · exact hm
+      · exact (by decide : 0 < 2^32))]
+    simp [LSpec.concatMSBF]
+    rfl
+  have hf0L : m * 2^32 < 2^56 := by simp only [Nat.reducePow] at *; omega
+  rw [hre, hsra, hsla, hfrac0, hsign, hsign,
+    C07.shiftRight_logical_spec 56 8 64 _ _ hf0L hsraL, C07.shiftLeft_spec 56 8 64 _ _ (by decide) hslaL]
+  have hsh : Leaf.mux2 64 (sra / 128 % 2) (ArithSpec.shiftRightL 64 (m * 2 ^ 32) sra)
+      (ArithSpec.shiftLeft 64 (m * 2 ^ 32) sla) = shifted := by
+    show _ = (if sra / 128 % 2 = 1 then m * 2 ^ 32 * 2 ^ sla % 2 ^ 64 else m * 2 ^ 32 / 2 ^ sra % 2 ^ 64)
+    unfold Leaf.mux2 ArithSpec.shiftRightL ArithSpec.shiftLeft
+    rw [Nat.mod_mod, Nat.mod_mod, Nat.mod_mod]
+  rw [hsh]
+  have hshL : shifted < 2^64 := by
+    show (if sra / 128 % 2 = 1 then m * 2 ^ 32 * 2 ^ sla % 2 ^ 64 else m * 2 ^ 32 / 2 ^ sra % 2 ^ 64) < 2^64
+    split <;> exact Nat.mod_lt _ (by decide)
+  have hpos : Leaf.range 33 shifted 64 32 = pos := by
+    show _ = shifted / 2^32
+    simp only [Leaf.range, Nat.shiftRight_eq_div_pow, Nat.reducePow, Nat.reduceSub, Nat.reduceAdd] at *; omega
+  have hlow : Leaf.range 33 shifted 32 0 = shifted % 2^33 := by
+    simp only [Leaf.range, Nat.shiftRight_eq_div_pow, Nat.reducePow, Nat.reduceSub, Nat.reduceAdd] at *; omega
+  rw [hpos, hlow, C07.neg_spec,
+    C08.notEqualConstant_spec 33 _ 0 (by decide) (Nat.mod_lt _ (by decide)) (by decide) (by decide),
+    C08.comparatorSU_spec 8 realE _ (by decide) (by simpa using hreL) (by decide)]
+  have hsre : realE / 128 % 2 < 2 := Nat.mod_lt _ (by decide)
+  have hsel3 : Leaf.or2 1 (Leaf.not1 1 0) (Leaf.not1 1 (realE / 128 % 2)) = 1 := by
+    have : realE / 128 % 2 = 0 ∨ realE / 128 % 2 = 1 := by omega
+    rcases this with h | h <;> rw [h] <;> decide
+  rw [hsel3, select3 _ _ _ _ _ _ _ _ hsre, select3 _ _ _ _ _ _ _ _ hsre, select3 _ _ _ _ _ _ _ _ hsre]
+  have hmux : Leaf.mux2 33 (signOf a) pos (ArithSpec.neg 33 pos) % 2 ^ 33 = fm % 2^33 := by
+    show _ = (if signOf a = 1 then Bits.put 33 (-(pos:Int)) else pos) % 2^33
+    have := signOf_lt a
+    unfold Leaf.mux2 ArithSpec.neg
+    by_cases hs : signOf a = 1
+    · rw [if_pos (by omega), if_pos hs, Nat.mod_mod]
+    · rw [if_neg (by omega), if_neg hs, Nat.mod_mod]
+  have hne : LSpec.notEqualConstant (shifted % 2 ^ 33) 0 = b2n (decide (shifted % 2 ^ 33 ≠ 0)) := by
+    unfold LSpec.notEqualConstant
+    rw [b2n_inj, Bool.eq_iff_iff]
+    simp only [decide_eq_true_eq]
+    omega
+  rw [hmux, hne]
+  simp only [LSpec.comparatorSU, show Leaf.const 32 0 % 2 ^ 32 = 0 by decide, show Leaf.not1 1 0 % 2 ^ 1 = 1 by decide,
+    show Leaf.buf 1 0 = 0 by decide, show Leaf.const 1 0 % 2 ^ 1 = 0 by decide, show Leaf.const 8 30 = 30 by decide,
+    Nat.pow_one]
+  rfl
+
 end C13
